@@ -247,6 +247,46 @@ func C15_Accessors() {
 	vf.Reach("accessors")
 }
 
+// C15_Undefined: a nil handed to the script arrives as undefined in every
+// Add/Set/Clone/Run ordering (the script inspects the value, it does not just
+// pass it through).
+func C15_Undefined() {
+	s := tengo.NewScript([]byte(`isu := is_undefined(x); tn := type_name(x); eq := x == undefined; ne := x != undefined; alt := x || 5; st := string(x); arr := [x]; y := x`))
+	how := vf.Choice("how", 3)
+	v := vf.Int64("v")
+	switch how {
+	case 0:
+		_ = s.Add("x", nil)
+	case 1:
+		_ = s.Add("x", v)
+	case 2:
+		_ = s.Add("x", tengo.UndefinedValue)
+	}
+	c, err := s.Compile()
+	vf.Assert(err == nil, "script inspecting a host variable compiles")
+	if how == 1 {
+		vf.Assert(c.Set("x", nil) == nil, "Set accepts nil")
+	}
+	cur := c
+	for k := vf.Choice("clones", 3); k > 0; k-- {
+		cur = cur.Clone()
+	}
+	runs := 1 + vf.Choice("runs", 2)
+	for k := 0; k < runs; k++ {
+		rerr, panicked, ptext := RunGuarded(cur)
+		vf.Assert(!panicked, "a script inspecting an undefined host variable does not panic: "+ptext)
+		vf.Assert(rerr == nil, "a script inspecting an undefined host variable runs")
+		vf.Assert(cur.Get("isu").Bool() && cur.Get("eq").Bool() && !cur.Get("ne").Bool(), "nil arrives as undefined (is_undefined, ==, !=)")
+		vf.Assert(cur.Get("tn").String() == "undefined", "nil arrives with type undefined")
+		vf.Assert(cur.Get("alt").Int() == 5, "nil arrives falsy")
+		vf.Assert(cur.Get("st").IsUndefined(), "string(undefined) is undefined")
+		vf.Assert(cur.Get("y").IsUndefined() && cur.Get("x").IsUndefined() && !cur.IsDefined("x"), "reads back as undefined")
+		arr, ok := cur.Get("arr").Object().(*tengo.Array)
+		vf.Assert(ok && len(arr.Value) == 1 && arr.Value[0] == tengo.UndefinedValue, "stored in a container as the undefined value")
+	}
+	vf.Reach("undefined")
+}
+
 // ---- API histories against a small model
 
 var histScripts = []string{
@@ -256,7 +296,9 @@ var histScripts = []string{
 	`if x > 0 { z := x; y = z } else { y = -x }`,
 }
 
-var histNames = []string{"x", "y", "w"}
+// the third name is inert (no script mentions it as a variable); it is either
+// a fresh name or the name of a builtin function, which a host variable shadows
+var histInert = []string{"w", "len", "format"}
 
 // C15_History: a sequence of API calls against a map-based model: a variable
 // reads as the last value the host set or the script assigned; undeclared
@@ -267,6 +309,8 @@ func C15_History() {
 		L = 5
 	}
 	src := histScripts[vf.Choice("script", len(histScripts))]
+	inert := histInert[vf.Choice("inert", len(histInert))]
+	histNames := []string{"x", "y", inert}
 	s := tengo.NewScript([]byte(src))
 	added := map[string]int64{} // model of Script variables
 	// phase 1: Add/Remove before compiling
@@ -344,8 +388,8 @@ func C15_History() {
 			v := vf.Int64("sv" + string(rune('0'+k)))
 			e := cur.Set(n, v)
 			known := defined[n] || (n == "y")
-			if n == "w" {
-				known = defined["w"]
+			if n == inert {
+				known = defined[inert]
 			}
 			vf.Assert((e == nil) == known, "Set succeeds exactly for names the script declares")
 			if e == nil {
@@ -374,6 +418,11 @@ func C15_History() {
 				vf.Assert(cl.Get(n).Int64() == model[n], "a clone starts with the current values")
 				_ = cl.Set(n, model[n]+1)
 				vf.Assert(cur.Get(n).Int64() == model[n], "setting a variable of a clone does not affect the original")
+				_ = cl.Set(n, model[n])
+			}
+			if vf.Choice("continue-on-clone", 2) == 1 {
+				// the rest of the history happens to the clone
+				cur = cl
 			}
 		case 4: // GetAll
 			for _, v := range cur.GetAll() {
